@@ -180,6 +180,14 @@ def check_record(ck, rule, key, wseq, word, rseq, rord, spec, loc_w, loc_r, skip
             continue
         if not names_match(a, b_):
             bad.append("field %d: written from `%s`, read into `%s`" % (i + skip_reader_prefix, a, b_))
+    badw = ["field %d: `%s` written where the layout has `%s`" % (i + skip_reader_prefix, a, c) for i, (a, c) in enumerate(zip(wn, sn))
+            if not wseq[i + skip_reader_prefix][0].startswith("bytes") and not names_match(a, c)]
+    ck.check(not badw, rule, key + "|writer-fields", "each written field is the member the specification names at that offset (%d fields)" % len(wn),
+             "the writer puts members at offsets the published layout assigns to other members: %s" % badw[:4], loc_w)
+    badr = ["field %d: read into `%s` where the layout has `%s`" % (i + skip_reader_prefix, b_, c) for i, (b_, c) in enumerate(zip(rn, sn))
+            if not rseq[i][0].startswith("bytes") and not names_match(b_, c)]
+    ck.check(not badr, rule, key + "|reader-fields", "each decoded field lands in the member the specification names at that offset",
+             "fields decoded into the wrong member: %s" % badr[:4], loc_r)
     ck.check(not bad, rule, key + "|field-pairing", "the i-th written field is the i-th read field (%d fields)" % len(wn), "writer/reader field order disagrees: %s" % bad[:4], loc_r)
 
 
